@@ -85,22 +85,23 @@ def plan(tier):
     shards = []
     if tier == "quick":
         # stride sample of the enumerated space (complete in thorough)
-        for name, stride in (("mod33", 97), ("local32", 53), ("method32", 89)):
+        for name, stride in (("mod33", 199), ("local32", 53), ("method32", 89)):
             n = _space_size(name)
-            per = 4 if name == "mod33" else 1
+            per = 2 if name == "mod33" else 1
             for k in range(per):
                 shards.append({"kind": "enum", "name": f"bind:{name}:s{k}", "space": name, "lo": 0, "hi": n,
                                "stride": stride * per, "offset": k * stride})
         for i in range(2):
             shards.append({"kind": "hyp", "name": f"bindhyp{i}", "examples": 700, "gen": "bind"})
         for i in range(9):
-            shards.append({"kind": "hyp", "name": f"prog{i}", "examples": 450, "gen": "prog"})
+            shards.append({"kind": "hyp", "name": f"prog{i}", "examples": 300, "gen": "prog"})
     else:
         for name in ENUM_SPACES:
             n = _space_size(name)
-            for lo in range(0, n, _CHUNK):
+            stride = 8 if name == "mod42" else 1  # the 4-parameter space is only sampled
+            for lo in range(0, n, _CHUNK * stride):
                 shards.append({"kind": "enum", "name": f"bind:{name}:{lo}", "space": name, "lo": lo,
-                               "hi": min(n, lo + _CHUNK), "stride": 1, "offset": 0})
+                               "hi": min(n, lo + _CHUNK * stride), "stride": stride, "offset": lo})
         for i in range(16):
             shards.append({"kind": "hyp", "name": f"bindhyp{i}", "examples": 2500, "gen": "bind"})
         for i in range(64):
@@ -119,7 +120,10 @@ def enumerate(shard):  # noqa: A001 - name fixed by the module contract
             continue
         for call in cs:
             if lo <= idx < hi and (idx - offset) % stride == 0 and idx >= offset:
-                yield {"kind": "bind", "ctx": ctx, "sig": sig, "call": call, "cell": shard["space"]}
+                case = {"kind": "bind", "ctx": ctx, "sig": sig, "call": call}
+                if stride == 1:
+                    case["cell"] = shard["space"]  # completely enumerated sub-space
+                yield case
             idx += 1
         if idx >= hi:
             return
@@ -164,9 +168,7 @@ def run_cpython(src):
         mod = loader.load_module(src)  # our own rendering: an exception here is a generator bug
         try:
             val = mod.run()
-        except RecursionError:
-            raise
-        except Exception as e:  # noqa: BLE001 - the program under test may raise by design
+        except Exception as e:  # noqa: BLE001 - the program under test may raise by design (incl. RecursionError)
             val = _Raised(e)
     return val, list(RT.LOG), mod
 
@@ -225,6 +227,8 @@ def canon(v, depth=0):
     if isinstance(v, type):
         m = v.__module__
         return ["type", v.__qualname__ if m.startswith("cvgen") else f"{m}.{v.__qualname__}"]
+    if t.__name__ in ("function", "method", "builtin_function_or_method", "FunctionDefinition", "method-wrapper"):
+        return ["callable"]  # functions are opaque (the tracer keeps its own representation of local functions)
     mod = getattr(t, "__module__", "") or ""
     if mod.startswith("cvgen"):
         d = getattr(v, "__dict__", {})
